@@ -100,9 +100,13 @@ structure ReEnv where
 
 /-- `lexerql.ParseDuration`: Prometheus syntax first, then Go syntax -/
 def parseDurationText (t : Bytes) : Option Int :=
-  match Flags.parsePromDuration t with
-  | some d => some d
-  | none => Num.parseDuration t
+  let r := match Flags.parsePromDuration t with
+    | some d => some d
+    | none => Num.parseDuration t
+  -- both parsers report an overflow of int64 nanoseconds
+  match r with
+  | some d => if d > 9223372036854775807 ∨ d < -9223372036854775808 then none else some d
+  | none => none
 
 def rangeOpOf : K → Option RangeOp
   | .countOverTime => some .count | .rate => some .rate | .rateCounter => some .rateCounter
